@@ -1233,7 +1233,7 @@ void dyadic_interval_pow(lp_dyadic_interval_t* P, const lp_dyadic_interval_t* I,
       P->is_point = 1;
       dyadic_rational_destruct(&P->b);
     }
-    dyadic_rational_assign_int(&P->a, 1, 1);
+    dyadic_rational_assign_int(&P->a, 1, 0);
     P->a_open = 0;
     P->b_open = 0;
   } else if (I->is_point) {
